@@ -23,6 +23,9 @@ TRUSTED = c09.TRUSTED + ["omp_set_lock mutual exclusion, OpenMP reduction(+) and
 ASSUMPTIONS = c09.ASSUMPTIONS + ["per-chunk function additive over adjacent intervals (established for the real "
                                  "per-chunk functions by chunk_additive in the other half of C03)"]
 
+RULE += "; " + p2loop.RULE_C03
+TRUSTED = TRUSTED + p2loop.TRUSTED_P2B
+
 THREADS = (1, 2, 3, 5, 8, 17, 33, 64)
 
 
